@@ -485,7 +485,7 @@ def spec_structure(chk):
 
 def run(chk):
     thorough = chk.tier == "thorough"
-    D = 10 if thorough else 4
+    D = 10 if thorough else 7
     chk.bounds = {"exact numbers": "every Integer and every Rational with non-zero denominator of either sign, components below 10^%d in magnitude%s" % (D, " (= all of i32)" if D == 10 else ""),
                   "booleans and characters": "both booleans, every Unicode scalar value",
                   "lists and vectors": "%d shapes: proper lists of 0..3 elements, improper lists, lists in lists, vectors of 0..3 elements, a list in a vector and a vector in a list; element printing stubbed" % len(SHAPES)}
